@@ -181,3 +181,22 @@ Definition flag_is_append (f : string) : bool :=
   existsb (fun fl => String.eqb (fl_field fl) f && fl_append fl) cli_flags.
 Definition overlapping_config (real config : list string) : bool :=
   existsb (fun f => negb (flag_is_append f) && existsb (String.eqb f) config) real.
+
+(* known-finding class nonutf8_argv_with_config: a command-line argument (a FILE name) that is not valid
+   UTF-8 while a config file was read and split into words: the splice loses its place *)
+Definition is_nonutf8 (a : option bytes) : bool := match a with None => true | Some _ => false end.
+Definition nonutf8_argv_with_config (real : list (option bytes)) (config_was_read : bool) : bool :=
+  config_was_read && existsb is_nonutf8 real.
+
+(* known-finding class double_dash_config: the real arguments contain the end-of-options marker and the
+   config file contributes words: they land after the marker and are read as FILE arguments *)
+Definition double_dash_config (real config : list bytes) : bool :=
+  existsb (bytes_eqb (B "--")) real && negb (match config with [] => true | _ => false end).
+
+(* known-finding class unknown_theme: HTML output with a --syntax-highlighting value that is neither
+   'none' nor one of the theme names the highlighter ships (the list is supplied by the caller) *)
+Definition unknown_theme (shipped : list bytes) (c : cli) : bool :=
+  match documented_renderer c, documented_highlighter c with
+  | R_html, Some t => negb (existsb (bytes_eqb t) shipped)
+  | _, _ => false
+  end.
